@@ -277,10 +277,14 @@ def r6(R, repo):
   stream = astu.src(lp.stmt.target.elts[1])
   body = c.loop_body_nodes(lp.stmt)
   draws = [n for n in body if isinstance(n.stmt, ast.Assign) and isinstance(n.stmt.value, ast.Call) and astu.src(n.stmt.value) == '%s()' % stream]
+  if not draws:
+    # the draw nested in another expression: key = jax.random.split(stream(), n)
+    draws = [n for n in body if n.kind == 'stmt' and n.stmt is not None and any(isinstance(x, ast.Call) and astu.src(x) == '%s()' % stream for x in ast.walk(n.stmt))]
+  nested_draw = bool(draws) and not (isinstance(draws[0].stmt, ast.Assign) and astu.src(draws[0].stmt.value) == '%s()' % stream)
   apps = [n for n in body if isinstance(n.stmt, ast.Expr) and isinstance(n.stmt.value, ast.Call) and astu.src(n.stmt.value.func) == 'backups.append']
   R.require(len(apps) == 1, 'split_rngs: backups.append not found')
   if not draws:
-    handed = [x for n_ in body if n_.stmt is not None for x in ast.walk(n_.stmt) if isinstance(x, ast.Call) and any(isinstance(a_, ast.Name) and a_.id == stream for a_ in x.args)]
+    handed = [x for n_ in body if n_.stmt is not None for x in ast.walk(n_.stmt) if isinstance(x, ast.Call) and any(isinstance(a_, ast.Name) and a_.id == stream for a_ in x.args) and astu.call_name(x) not in ('isinstance', 'type', 'id', 'hasattr')]
     if handed:
       R.unsure(key_of(f, 'draw before backup'), f, 'the stream is handed to `%s`: the draw may happen there' % astu.short(handed[0]))
     else:
@@ -289,6 +293,11 @@ def r6(R, repo):
     R.check(c.must_pass(lp, apps[0], draws), key_of(f, 'draw before backup'), (f, apps[0].stmt), evidence=True, msg_fail=
             'the backup must be taken after `key = stream()`: it then holds the advanced count, so restoring resumes the stream after the key that was split (otherwise that key is replayed)',
             witness=c.witness(lp, apps[0], avoid=draws))
+    if nested_draw:
+      tup0 = apps[0].stmt.value.args[0]
+      layout0 = [astu.src(e) for e in tup0.elts] if isinstance(tup0, ast.Tuple) else None
+      R.judge(layout0 is not None and len(layout0) == 3, layout0 == [stream, '%s.key.value' % stream, '%s.count.value' % stream], key_of(f, 'backup = (stream, key, count)'), (f, apps[0].stmt), 'the backup tuple must be (stream, stream.key.value, stream.count.value)')
+      return
     drawn = astu.src(draws[0].stmt.targets[0])
     sp = [n for n in body if isinstance(n.stmt, ast.Assign) and isinstance(n.stmt.value, ast.Call) and astu.call_name(n.stmt.value) == 'jax.random.split']
     ok = len(sp) == 1 and astu.src(sp[0].stmt.value.args[0]) == drawn and c.must_pass(lp, sp[0], draws)
